@@ -135,4 +135,29 @@ theorem C13_gen_approximators :
     Gen.C13.approximators = knownApproximators ∧ Gen.C13.instantiated = knownApproximators.map (·.1) := by
   decide
 
+/-- which quantity of `FuncConConverter_MIP_CRTP::Convert` an option (given by one of its names) ends up in, composed from
+the three generated tables: `AddOption` binding → accessor returning that member → where `Convert` stores the accessor -/
+def optionFeeds (opts : List (List String × String)) (accs uses : List (String × String)) (name : String) : Option String :=
+  match opts.find? (fun o => o.1.contains name) with
+  | none => none
+  | some o =>
+    match accs.find? (fun a => a.2 == o.2) with
+    | none => none
+    | some a => (uses.find? (fun u => u.2 == a.1)).map (·.1)
+
+/-- **option plumbing (structure tie)**: in the current source `cvt:plapprox:reltol` (and its aliases) is bound to the
+member returned by `PLApproxRelTol()`, which `Convert` stores into `laPrm.ubErr` (the requested tolerance), and
+`cvt:plapprox:domain` (and aliases) to the member returned by `PLApproxDomain()`, which `Convert` uses as the graph
+limit `dm`; the two options are bound to different members -/
+theorem C13_gen_option_plumbing :
+    Gen.C13.plOptions = [(["cvt:plapprox:reltol", "plapprox:reltol", "plapproxreltol"], "PLApproxRelTol_"),
+                         (["cvt:plapprox:domain", "plapprox:domain", "plapproxdomain"], "PLApproxDomain_")] ∧
+    Gen.C13.plAccessors = [("PLApproxRelTol", "PLApproxRelTol_"), ("PLApproxDomain", "PLApproxDomain_")] ∧
+    Gen.C13.plUses = [("dm", "PLApproxDomain"), ("laPrm.ubErr", "PLApproxRelTol")] ∧
+    (∀ n ∈ ["cvt:plapprox:reltol", "plapprox:reltol", "plapproxreltol"],
+      optionFeeds Gen.C13.plOptions Gen.C13.plAccessors Gen.C13.plUses n = some "laPrm.ubErr") ∧
+    (∀ n ∈ ["cvt:plapprox:domain", "plapprox:domain", "plapproxdomain"],
+      optionFeeds Gen.C13.plOptions Gen.C13.plAccessors Gen.C13.plUses n = some "dm") := by
+  decide
+
 end MpVerif.C13
